@@ -183,6 +183,7 @@ pub struct World {
     pub ovh: u64,
     max_events: u64,
     pub drained: bool,
+    pub fs_calls: BTreeMap<String, u32>,
 }
 
 pub const POLLIN: u8 = 1;
@@ -218,6 +219,7 @@ impl World {
             ovh: 0,
             max_events,
             drained: false,
+            fs_calls: BTreeMap::new(),
         }
     }
 
@@ -562,6 +564,24 @@ impl World {
             } if *p == proc_ && *n == nth => Some(*errno),
             _ => None,
         })
+    }
+
+    /// a filesystem operation of scrut at a hooked site: fail it if the scenario says so
+    pub fn fs_fault(&mut self, site: &str) -> Option<i32> {
+        let n = self.fs_calls.entry(site.to_string()).or_insert(0);
+        let nth = *n;
+        *n += 1;
+        let hit = self.sc.faults.iter().find_map(|f| match f {
+            Fault::Fs { site: s, nth: k, errno } if s == site && *k == nth => Some(*errno),
+            _ => None,
+        });
+        if let Some(errno) = hit {
+            self.log(LogEv::Fault {
+                kind: format!("fs_error:{}:{}", site, errno),
+                pid: None,
+            });
+        }
+        hit
     }
 
     pub fn wait_fault(&self, proc_: u32) -> Option<i32> {
